@@ -254,9 +254,18 @@ def run(ctx):
         before = keys[0]["sp"][3] < incs[0]["sp"][3]
         okc = (plus1 and before) or (not plus1 and not before and arg is not None and H.contains_local(arg, cname))
         # and both sit in the non-object branch
-        ifs = [n for n in H.walk(pj["body"]) if H.kind(n) == "If" and H.kind(H.strip(n["cond"])) == "LetExpr" and any((v or "").endswith("Value::Object") for v in H.pat_variants(H.strip(n["cond"])["pat"]))]
-        in_else = bool(ifs) and ifs[0].get("else") is not None and any(x is incs[0] for x in H.walk(ifs[0]["else"])) and any(x is keys[0] for x in H.walk(ifs[0]["else"]))
-        okc = okc and in_else
+        other_regions = []
+        for n in H.walk(pj["body"]):
+            if H.kind(n) == "If" and H.kind(H.strip(n["cond"])) == "LetExpr" and any((v or "").endswith("Value::Object") for v in H.pat_variants(H.strip(n["cond"])["pat"])):
+                if n.get("else") is not None:
+                    other_regions.append(n["else"])
+            elif H.kind(n) == "Match" and any((v or "").endswith("Value::Object") for a in n["arms"] for v in H.pat_variants(a["pat"])):
+                other_regions += [a["body"] for a in n["arms"] if not any((v or "").endswith("Value::Object") for v in H.pat_variants(a["pat"]))]
+        if not other_regions:
+            in_else = None
+        else:
+            in_else = any(any(x is incs[0] for x in H.walk(r_)) and any(x is keys[0] for x in H.walk(r_)) for r_ in other_regions)
+        okc = (okc and in_else) if in_else is not None else (None if okc else False)
         d += "; key uses counter+1 before the increment: %s; both in the non-object branch: %s" % (plus1 and before, in_else)
     ctx.inst("C19.R3", "parse_json_inputs#value_N", okc, d, H.loc(pj["body"]))
 
